@@ -544,6 +544,8 @@ class X12LoopDataNode(X12DataNode):
         ret.end_loops = list(self.end_loops)
         ret.parent = self.parent
         for child in self.children:
+            if child.type is None:
+                continue  # deleted, not yet swept
             child_copy = child.copy()
             child_copy.parent = ret
             ret.children.append(child_copy)
